@@ -264,8 +264,22 @@ pub fn bfs<const K: usize>(
         if d >= depth {
             continue;
         }
+        let stored = canon(&states[si].0, probe_len);
         let (tree, hist) = states[si].clone();
         let before = canon(&tree, probe_len);
+        // the copy the actions are applied to must be the same arena (Clone is an operation of the tree, too)
+        if before != stored || invariant(&tree).is_err() != invariant(&states[si].0).is_err() {
+            if check {
+                out.violate(
+                    Violation::new(
+                        "clone() of the tree is not the same arena (indices, links, values or future indices differ)",
+                        json!({"K": K, "history": hist.iter().map(|x| format!("{:?}", x)).collect::<Vec<_>>(), "original": format!("{:?}", stored.nodes), "clone": format!("{:?}", before.nodes)}),
+                    )
+                    .tag("kind", "clone").tag("op", "clone"),
+                );
+            }
+            continue;
+        }
         for a in actions(&tree, max_len) {
             transitions += 1;
             let mut t2 = tree.clone();
@@ -323,6 +337,12 @@ pub fn bfs<const K: usize>(
                 }
             }
             if !seen.contains_key(&after) {
+                if check {
+                    if let Err(msg) = accessors(&t2) {
+                        out.violate(Violation::new(format!("accessors disagree with the arena: {msg}"), rec()).tag("kind", "accessor").tag("op", "accessors"));
+                    }
+                    out.add("accessor_checks", 1);
+                }
                 let id = states.len();
                 seen.insert(after, id);
                 states.push((t2, hist2));
@@ -335,6 +355,101 @@ pub fn bfs<const K: usize>(
         }
     }
     Explored { states, transitions, by_depth }
+}
+
+/// The read and write accessors of one (well-formed) state agree with the arena. Every node gets its own index as
+/// value first, so that a swapped or misdirected reference is visible.
+pub fn accessors<const K: usize>(t0: &Tree<u8, K>) -> Result<(), String> {
+    let r = catch(|| -> Result<(), String> {
+        let mut t = t0.clone();
+        let idxs: Vec<usize> = t.node_indices().collect();
+        for &i in &idxs {
+            t.update_node(i, i as u8).map_err(|e| format!("update_node({i}): {e:?}"))?;
+        }
+        let arena: BTreeMap<usize, (Option<usize>, Vec<Option<usize>>, bool)> = t.node_iter().map(|(i, n)| (i, (n.parent, n.children.to_vec(), n.isleaf))).collect();
+        let free = (0..idxs.len() + 2).find(|i| !arena.contains_key(i)).unwrap();
+        if t.contains(free) || t.tree_node(free).is_ok() || t.node_value(free).is_ok() || t.is_leaf(free).is_ok() {
+            return Err(format!("index {free} is not in the arena but an accessor accepts it"));
+        }
+        for (&i, (par, ch, leaf)) in &arena {
+            if !t.contains(i) || *t.node_value(i).map_err(|e| format!("{e:?}"))? != i as u8 || t.is_leaf(i).ok() != Some(*leaf) || t.is_root(i) != (i == t.get_root_idx()) {
+                return Err(format!("contains / node_value / is_leaf / is_root wrong for node {i}"));
+            }
+            if t.num_children(i) != ch.iter().flatten().count() {
+                return Err(format!("num_children({i}) = {}", t.num_children(i)));
+            }
+            let listed: Vec<(usize, usize, usize, u8, u8)> = t.children(i).map(|e| (e.source_idx, e.label, e.target_idx, *e.source_value, *e.target_value)).collect();
+            let expect: Vec<(usize, usize, usize, u8, u8)> = ch.iter().enumerate().filter_map(|(l, c)| c.map(|c| (i, l, c, i as u8, c as u8))).collect();
+            if listed != expect {
+                return Err(format!("children({i}) = {:?}, arena {:?}", listed, expect));
+            }
+            for (l, c) in ch.iter().enumerate() {
+                match c {
+                    None => {
+                        if t.child(i, l).is_ok() || t.child_mut(i, l).is_ok() {
+                            return Err(format!("child({i},{l}) exists although the slot is empty"));
+                        }
+                    }
+                    Some(c) => {
+                        let e = t.child(i, l).map_err(|e| format!("child({i},{l}): {e:?}"))?;
+                        if (e.source_idx, e.label, e.target_idx, *e.source_value, *e.target_value) != (i, l, *c, i as u8, *c as u8) {
+                            return Err(format!("child({i},{l}) = ({}, {}, {}, values {} {})", e.source_idx, e.label, e.target_idx, e.source_value, e.target_value));
+                        }
+                        {
+                            let e = t.child_mut(i, l).map_err(|e| format!("child_mut({i},{l}): {e:?}"))?;
+                            if (e.source_idx, e.label, e.target_idx, *e.source_value, *e.target_value) != (i, l, *c, i as u8, *c as u8) {
+                                return Err(format!("child_mut({i},{l}) = ({}, {}, {}, values {} {})", e.source_idx, e.label, e.target_idx, e.source_value, e.target_value));
+                            }
+                            *e.target_value = 200;
+                        }
+                        if *t.node_value(*c).unwrap() != 200 || *t.node_value(i).unwrap() != i as u8 {
+                            return Err(format!("a write through child_mut({i},{l}).target_value did not reach node {c} only"));
+                        }
+                        t.update_node(*c, *c as u8).unwrap();
+                        {
+                            let e = t.parent_mut(*c).map_err(|e| format!("parent_mut({c}): {e:?}"))?;
+                            if (e.source_idx, e.label, e.target_idx, *e.source_value, *e.target_value) != (i, l, *c, i as u8, *c as u8) {
+                                return Err(format!("parent_mut({c}) = ({}, {}, {}, values {} {})", e.source_idx, e.label, e.target_idx, e.source_value, e.target_value));
+                            }
+                            *e.source_value = 201;
+                        }
+                        if *t.node_value(i).unwrap() != 201 || *t.node_value(*c).unwrap() != *c as u8 {
+                            return Err(format!("a write through parent_mut({c}).source_value did not reach node {i} only"));
+                        }
+                        t.update_node(i, i as u8).unwrap();
+                        let (a, b) = t.tree_node2_mut(*c, i).map_err(|e| format!("tree_node2_mut: {e:?}"))?;
+                        if a.value != *c as u8 || b.value != i as u8 {
+                            return Err(format!("tree_node2_mut({c},{i}) returned the nodes holding {} and {}", a.value, b.value));
+                        }
+                    }
+                }
+            }
+            match par {
+                None => {
+                    if t.parent(i).is_ok() || t.parent_mut(i).is_ok() {
+                        return Err(format!("parent({i}) exists for the root"));
+                    }
+                }
+                Some(p) => {
+                    let e = t.parent(i).map_err(|e| format!("parent({i}): {e:?}"))?;
+                    let l = arena[p].1.iter().position(|x| *x == Some(i)).unwrap();
+                    if (e.source_idx, e.label, e.target_idx, *e.source_value, *e.target_value) != (*p, l, i, *p as u8, i as u8) {
+                        return Err(format!("parent({i}) = ({}, {}, {})", e.source_idx, e.label, e.target_idx));
+                    }
+                }
+            }
+        }
+        let tm: Vec<(usize, u8)> = t.terminals_mut().map(|n| (n.idx, *n.value)).collect();
+        let te: Vec<(usize, u8)> = arena.iter().filter(|(_, v)| v.2).map(|(i, _)| (*i, *i as u8)).collect();
+        if tm != te {
+            return Err(format!("terminals_mut = {:?}, arena terminals {:?}", tm, te));
+        }
+        Ok(())
+    });
+    match r {
+        Ok(x) => x,
+        Err(m) => Err(format!("an accessor panicked: {m}")),
+    }
 }
 
 fn opname(a: &Act) -> &'static str {
